@@ -18,6 +18,9 @@ import (
 	"net"
 )
 
+// maxBodyLength is the largest body a single datagram can carry behind the 8-byte header.
+const maxBodyLength = 65507 - 8
+
 type data struct {
 	Index int
 	Body  []byte
